@@ -275,6 +275,15 @@ def _dvalues(ent, s):
     raise NotImplementedError(cn)
 
 
+def _partner_vertices(ent):
+    """vertices for a partner object (complement survey, base stations, electrodes) built against the CURRENT state of the
+    entity: an earlier step of the same case may have grown its vertices, and partners are validated against n_vertices"""
+    import numpy as np
+
+    n = getattr(ent, "n_vertices", None) or len(V4)
+    return np.array([[float(i), float(i % 2), float(i % 3)] for i in range(n)], dtype=float)
+
+
 def make_value(spec, ent, ws, loc, attr):
     import numpy as np
 
@@ -399,26 +408,26 @@ def make_value(spec, ent, ws, loc, attr):
         from geoh5py.objects import CurrentElectrode, PotentialElectrode
 
         other_cls = PotentialElectrode if isinstance(ent, CurrentElectrode) else CurrentElectrode
-        other = other_cls.create(ws, vertices=np.array(V4, dtype=float))
+        other = other_cls.create(ws, vertices=_partner_vertices(ent))
         cur_uid, pot_uid = (ent.uid, other.uid) if isinstance(ent, CurrentElectrode) else (other.uid, ent.uid)
         return {"Current Electrodes": cur_uid, "Potential Electrodes": pot_uid}
     if k == "dc_complement":
         from geoh5py.objects import CurrentElectrode, PotentialElectrode
 
         other_cls = PotentialElectrode if isinstance(ent, CurrentElectrode) else CurrentElectrode
-        return other_cls.create(ws, vertices=np.array(V4, dtype=float))
+        return other_cls.create(ws, vertices=_partner_vertices(ent))
     if k == "em_complement":
         tcls = ent.default_receiver_type if spec["which"] == "receivers" else ent.default_transmitter_type
         if tcls is type(None):
             raise LookupError("attribute cannot be set on this class")
-        return tcls.create(ws, vertices=np.array(V4, dtype=float))
+        return tcls.create(ws, vertices=_partner_vertices(ent))
     if k == "tipper_base":
         from geoh5py.objects import TipperBaseStations
 
         if isinstance(ent, TipperBaseStations):
             raise LookupError("base stations cannot have base stations (by design)")
 
-        return TipperBaseStations.create(ws, vertices=np.array(V4, dtype=float))
+        return TipperBaseStations.create(ws, vertices=_partner_vertices(ent))
     if k == "waveform":
         s = spec["seed"]
         return np.array([[0.0, 0.0], [1.0 + s, 1.0], [2.0 + s, 0.0]])
